@@ -5,6 +5,7 @@ CONSTANTS
   Arrays = {1, 2}
   Depth = 4
   BugInPlace = FALSE
+  BugSharedResult = FALSE
   Emit = TRUE
 INVARIANT Functional
 INVARIANT EmitProgram
